@@ -53,6 +53,15 @@ references at the SAME tolerances -- never with another execution):
      are working-precision NumPy scalars everywhere else; one more communicator per shard (role 'scalar-types', the first pool entry's
      (dx, N)) gets the same two values as python floats (variant A) / 0-d arrays of the working precision (B) / np.float64 (C) / 0-d
      float64 arrays (D).  Counters batches_comm_built_with_other_scalar_types, batches_dx_and_shift_passed_as_<type>.
+ (e) grid origin -- every other communicator is built with eul_grid_coord_shift = dx/2; four more per shard (``ORIGINS`` / role 'origin:*',
+     reusing pool (dx, N) pairs: only the support kernel captures the shift) get exactly 0.0 (python float or working-precision scalar),
+     dx/4, and x0 + dx/2 for a domain starting at x0 = -2 dx / +3.5 dx.  Documented convention: cell centre i sits at i*dx + shift along
+     every axis.  All monitors use the communicator's actual shift: markers are generated for the standard grid and moved with the
+     origin (same position classes relative to the cells, supports stay inside), the closed-form delta, floor / centre bookkeeping and
+     first moment use ``comm.shiftf``, and the coordinate / affine field of the Peskin checks is ``coordinate_field`` (i*dx + shift) instead
+     of the simulator's position_field.  Counters batches_grid_origin_zero / _quarter_cell / _shifted_domain.
+     Independently written changes now caught (were missed: every communicator had shift dx/2): nearest index from a hard-wired 0.5*dx
+     while the distances use the real shift; ``eul_grid_coord_shift = eul_grid_coord_shift or real_t(dx / 2)`` (an explicit 0.0 replaced).
 Self-test of (a)-(d) (tools/mut.sh, quick tier, seed 0, ...Communicator2D.py; each reported VIOLATION and every witness carries the new
 dimension; the unchanged tree is HELD for seeds 0-3 quick and seed 0 thorough):
  19 (a) both weight kernels write ``np.ascontiguousarray(interp_weights)[...] = ...`` (a copy    weights-not-finite (sentinels never replaced) only in batches
@@ -158,6 +167,9 @@ REQUIRE = {
     "history_slots_compared": 150,
     "interp_zero_field_values": 1000,
     "batches_comm_built_with_other_scalar_types": 100,
+    "batches_grid_origin_zero": 100,
+    "batches_grid_origin_quarter_cell": 100,
+    "batches_grid_origin_shifted_domain": 200,
 }
 
 EPS64 = float(np.finfo(np.float64).eps)
@@ -209,6 +221,53 @@ def scalar_as(kind, v):
     if kind == "0d-array-float64":
         return np.array(float(v))
     raise ValueError(kind)
+
+
+# grid origins: four more communicators per shard whose eul_grid_coord_shift is NOT dx/2 (cell centre i sits at i*dx + shift along every
+# axis): exactly 0.0 (vertex-centred samples; as python float and as working-precision scalar), dx/4, and x0 + dx/2 for a domain that
+# starts at x0 = -2 dx / +3.5 dx.  Each reuses the (x_range, nx, N) of a pool entry of the variant: only the support kernel captures the
+# shift, so one closure per (dx, shift) pair compiles.  Shared with C07.
+ORIGINS = {
+    "A": ("zero-python-float", "quarter-cell", "domain-starts-at-minus-2dx", "domain-starts-at-plus-3.5dx"),
+    "B": ("zero-working-precision", "quarter-cell", "domain-starts-at-plus-3.5dx", "domain-starts-at-minus-2dx"),
+    "C": ("quarter-cell", "zero-working-precision", "domain-starts-at-minus-2dx", "domain-starts-at-plus-3.5dx"),
+    "D": ("domain-starts-at-plus-3.5dx", "domain-starts-at-minus-2dx", "zero-python-float", "quarter-cell"),
+}
+ORIGIN_COUNTER = {"zero-python-float": "batches_grid_origin_zero", "zero-working-precision": "batches_grid_origin_zero", "quarter-cell": "batches_grid_origin_quarter_cell",
+                  "domain-starts-at-minus-2dx": "batches_grid_origin_shifted_domain", "domain-starts-at-plus-3.5dx": "batches_grid_origin_shifted_domain"}
+
+
+def origin_shift(kind, dx_t, real_t):
+    """the eul_grid_coord_shift argument of a grid-origin variant"""
+    dxf = float(dx_t)
+    if kind == "zero-python-float":
+        return 0.0
+    if kind == "zero-working-precision":
+        return real_t(0.0)
+    if kind == "quarter-cell":
+        return real_t(dxf / 4)
+    if kind == "domain-starts-at-minus-2dx":
+        return real_t(-2.0 * dxf + dxf / 2)
+    if kind == "domain-starts-at-plus-3.5dx":
+        return real_t(3.5 * dxf + dxf / 2)
+    raise ValueError(kind)
+
+
+def origin_entries(pool, variant):
+    return [(pool[(j + 1) % len(pool)], "origin:" + kind) for j, kind in enumerate(ORIGINS[variant])]
+
+
+def coordinate_field(shape, dxf, shiftf, real_t):
+    """cell-centre coordinates i*dx + shift of a grid whose first sample sits at ``shift`` (the documented meaning of eul_grid_coord_shift),
+    laid out like FlowSimulator.position_field: (d, *shape), component a = coordinate a, which runs along array axis d-1-a"""
+    d = len(shape)
+    out = np.empty((d,) + tuple(shape), dtype=real_t)
+    for a in range(d):
+        ax = d - 1 - a
+        bshape = [1] * d
+        bshape[ax] = -1
+        out[a] = (np.arange(shape[ax], dtype=np.float64) * dxf + shiftf).reshape(bshape)
+    return out
 
 
 def batch_layout(b):
@@ -416,6 +475,7 @@ class Comm:
         # NumPy scalars, what VirtualBoundaryForcing hands over when the simulators build it
         dx_a = dx_t if dx_arg is None else dx_arg
         sh_a = self.shift_t if shift_arg is None else shift_arg
+        self.shiftf = float(sh_a)  # the shift this communicator was actually built with (all monitors use it)
         if positional:
             # documented signature (dx, eul_grid_coord_shift, num_lag_nodes, interp_kernel_width, real_t, n_components=1,
             # interp_kernel_type="cosine"): positional arguments, defaults left out where they apply
@@ -540,6 +600,7 @@ def run_shard(sh, rec):
     if sh["variant"] == "B":
         entries.append((BIG_N[d], "bigN"))
     entries += [(SIBLINGS[d][sh["variant"]], "sibling"), (POOL[d][sh["variant"]][0], "first-again"), (POOL[d][sh["variant"]][0], "scalar-types")]
+    entries += origin_entries(POOL[d][sh["variant"]], sh["variant"])
     first = None
     npred = 0
     for (x_range, nx, N), role in entries:
@@ -568,7 +629,9 @@ def run_shard(sh, rec):
                     rec.note(f"other-precision predecessor failed: {type(e).__name__}: {e}")
             skind = SCALAR_TYPES[sh["variant"]] if role == "scalar-types" else None
             try:
-                if skind is None:
+                if role.startswith("origin:"):
+                    comm = Comm(d, dx_t, N, real_t, kernel, shift_arg=origin_shift(role[7:], dx_t, real_t))
+                elif skind is None:
                     comm = Comm(d, dx_t, N, real_t, kernel, positional=(role == "sibling"))
                 else:
                     # same spacing and shift VALUES as the first communicator of the process, passed as another scalar type
@@ -580,6 +643,8 @@ def run_shard(sh, rec):
             if first is None and role == "pool":
                 first = comm
                 probe_excluded_layout(rec, rng, comm)
+        shiftf = comm.shiftf
+        off_origin = shiftf - float(real_t(dx_t / 2))  # markers are generated for the standard grid and moved with the grid origin
         nb = int(np.clip(target // N, 7 if tier == "quick" else 21, 120 if tier == "quick" else 600))
         if role == "bigN":
             nb = 7 if tier == "quick" else 21
@@ -596,7 +661,10 @@ def run_shard(sh, rec):
             if d == 3 and shape[0] > shape[-1]:
                 rec.count("batches_grid_z_exceeds_x")
             rec.count({"pool": "batches_pool_comm", "bigN": "batches_pool_comm", "sibling": "batches_sibling_comm_shared_dx_or_N", "first-again": "batches_first_comm_after_sibling",
-                       "scalar-types": "batches_comm_built_with_other_scalar_types"}[role])
+                       "scalar-types": "batches_comm_built_with_other_scalar_types", "origin": "batches_grid_origin_not_half_a_cell"}[role.split(":")[0]])
+            if role.startswith("origin:"):
+                rec.count(ORIGIN_COUNTER[role[7:]])
+                rec.count(f"batches_grid_origin_{role[7:]}")
             if role == "scalar-types":
                 rec.count(f"batches_dx_and_shift_passed_as_{SCALAR_TYPES[sh['variant']]}")
             if N > 1024:
@@ -608,6 +676,12 @@ def run_shard(sh, rec):
             P = gen_positions(rng, cls, N, shape, dx_t, real_t, x_range, pf)
             base = (d, sh["dtype"], kernel, "dyadic" if dy else "nondyadic", n_class(N), cls)
             meta = {"dim": d, "dtype": sh["dtype"], "kernel": kernel, "x_range": x_range, "shape": shape, "dx": dxf, "N": N, "positions": cls, "object": role}
+            if role.startswith("origin:"):
+                # same position classes relative to the cells of THIS grid (centres i*dx + shift); the coordinate field the Peskin checks
+                # interpolate is the one of this grid, not the simulator's (whose first centre is at dx/2)
+                P = P + off_origin
+                pf = coordinate_field(shape, dxf, shiftf, real_t)
+                meta["eul_grid_coord_shift"] = shiftf
             if role == "scalar-types":
                 meta["dx_and_shift_passed_as"] = SCALAR_TYPES[sh["variant"]]
             layout = batch_layout(b)
@@ -619,7 +693,7 @@ def run_shard(sh, rec):
             _check_batch(rec, rng, comm, P, shape, pf, dxf, shiftf, eps, base, meta, kernel, real_t)
             comm.flush_calls(rec)
             if b == hist_at:
-                _history(rec, rng, comm, shape, pf, dx_t, x_range, dxf, shiftf, eps, base[:5], {k: v for k, v in meta.items() if k != "layout"}, kernel, real_t)
+                _history(rec, rng, comm, shape, dom.position_field, pf, off_origin, dx_t, x_range, dxf, shiftf, eps, base[:5], {k: v for k, v in meta.items() if k != "layout"}, kernel, real_t)
         comm.set_layout(rng, None)
 
 
@@ -859,7 +933,7 @@ def _check_batch(rec, rng, comm, P, shape, pf, dxf, shiftf, eps, base, meta, ker
             rec.violation("interpolation-raises", f"{type(e).__name__}: {e} {meta}", wit)
 
 
-def _history(rec, rng, comm, shape, pf, dx_t, x_range, dxf, shiftf, eps, base5, meta, kernel, real_t):
+def _history(rec, rng, comm, shape, sim_pf, pf, off_origin, dx_t, x_range, dxf, shiftf, eps, base5, meta, kernel, real_t):
     """K calls of every kernel of ONE communicator in a tight loop in which every array argument is a TEMPORARY view ``stack[name][k]`` of
     different memory (the view objects die after each call and CPython hands their id() to the next ones, so anything remembered per
     id(argument) or per argument object is stale); afterwards every slot goes through the complete battery of ``_check_batch``."""
@@ -867,7 +941,7 @@ def _history(rec, rng, comm, shape, pf, dx_t, x_range, dxf, shiftf, eps, base5, 
     K = 3 if N >= 128 else int(rng.integers(3, 7))
     classes = [POSITION_CLASSES[int(i)] for i in rng.permutation(len(POSITION_CLASSES))[:K]]
     S = {
-        "P": np.stack([gen_positions(rng, c, N, shape, dx_t, real_t, x_range, pf) for c in classes]),
+        "P": np.stack([gen_positions(rng, c, N, shape, dx_t, real_t, x_range, sim_pf) + off_origin for c in classes]),
         "idx": np.full((K, d, N), -(2**40), dtype=int),
         "sup": util.sentinel_like(rng, (K,) + comm._bufs[None][1].shape, real_t).copy(),
         "w": util.sentinel_like(rng, (K,) + comm._bufs[None][2].shape, real_t).copy(),
